@@ -72,7 +72,7 @@ func (s *SubscriptionService) CreateSubscription(sc *uasc.SecureChannel, r ua.Re
 	sub.Session = session
 	sub.Channel = sc
 	sub.ID = newsubid
-	sub.RevisedPublishingInterval = req.RequestedPublishingInterval
+	sub.RevisedPublishingInterval = revisedPublishingInterval(req.RequestedPublishingInterval)
 	sub.RevisedLifetimeCount = req.RequestedLifetimeCount
 	sub.RevisedMaxKeepAliveCount = req.RequestedMaxKeepAliveCount
 
@@ -90,7 +90,7 @@ func (s *SubscriptionService) CreateSubscription(sc *uasc.SecureChannel, r ua.Re
 			AdditionalHeader:   ua.NewExtensionObject(nil),
 		},
 		SubscriptionID:            uint32(newsubid),
-		RevisedPublishingInterval: req.RequestedPublishingInterval,
+		RevisedPublishingInterval: sub.RevisedPublishingInterval,
 		RevisedLifetimeCount:      req.RequestedLifetimeCount,
 		RevisedMaxKeepAliveCount:  req.RequestedMaxKeepAliveCount,
 	}
@@ -252,6 +252,26 @@ func (s *SubscriptionService) DeleteSubscriptions(sc *uasc.SecureChannel, r ua.R
 		Results:         results,                //                  []StatusCode
 		DiagnosticInfos: []*ua.DiagnosticInfo{}, //          []*DiagnosticInfo
 	}, nil
+}
+
+// publishing interval limits in milliseconds.
+const (
+	minPublishingInterval = 10.0
+	maxPublishingInterval = 24 * 60 * 60 * 1000.0
+)
+
+// revisedPublishingInterval returns the publishing interval the server
+// supports for a requested one. Zero, negative and NaN requests get the
+// fastest supported interval, as Part 4, 5.13.2 asks for.
+func revisedPublishingInterval(requested float64) float64 {
+	switch {
+	case requested >= minPublishingInterval && requested <= maxPublishingInterval:
+		return requested
+	case requested > maxPublishingInterval:
+		return maxPublishingInterval
+	default:
+		return minPublishingInterval
+	}
 }
 
 type PubReq struct {
